@@ -123,6 +123,22 @@ func main() {
 	}
 	maxlen := 4
 	gen(nil, maxlen)
+	// long lists (the wire limit of 16 walk elements must not leak into the helpers): safe names,
+	// with 0..3 leading ".." and occasionally one bad element at the end
+	for _, n := range []int{15, 16, 17, 18, 32, 33, 40, 100} {
+		for lead := 0; lead <= 3; lead++ {
+			l := make([]string, 0, n+1)
+			for i := 0; i < lead; i++ {
+				l = append(l, "..")
+			}
+			for i := lead; i < n; i++ {
+				l = append(l, string(rune('a'+i%26)))
+			}
+			lists = append(lists, l)
+			lists = append(lists, append(append([]string{}, l...), alphabet[(n+lead)%len(alphabet)]))
+		}
+	}
+	nlong := 64
 	// random lists: names from alphabet plus random bytes
 	nrand := r.N(2000, 40000)
 	for i := 0; i < nrand; i++ {
@@ -261,5 +277,5 @@ func main() {
 		r.Case(c, sx.Str(path.Clean(s)), "clean", s != "")
 	}
 	r.Extra["exhaustive"] = true
-	r.Extra["grid_lists"] = len(lists) - nrand
+	r.Extra["grid_lists"] = len(lists) - nrand - nlong
 }
